@@ -2,7 +2,7 @@
    Only statements closed by [exact]; the lemmas live in Proofs/Reference.v.
    The regular expressions are Generated/Regexes.v (re-translated from
    registry/reference.go on every run). *)
-From Oras Require Import Base.Prelude Base.Regex Generated.GC20 Model.Reference Model.RefOps Proofs.Reference Proofs.RefOps Proofs.RefURL Proofs.RefGrammar Model.NetURL Proofs.NetURL Proofs.RefDescOps.
+From Oras Require Import Base.Prelude Base.Regex Generated.GC20 Model.Reference Model.RefOps Proofs.Reference Proofs.RefOps Proofs.RefURL Proofs.RefGrammar Model.NetURL Proofs.NetURL Proofs.RefDescOps Model.RefURLGen Proofs.RefURLGen.
 
 (* ParseReference accepts exactly the grammar (any registry predicate). *)
 Theorem C20_parse_iff_grammar :
@@ -387,3 +387,20 @@ Example C20_desc_op_examples :
   = [(b "GET", b "https://registry-1.docker.io/v2/library/x/referrers/sha256:ab?artifactType=a%2Fb")] /\
   parse_query (b "n=50&last=x+y%26z") = Some [(b "n", b "50"); (b "last", b "x y&z")].
 Proof. vm_compute. repeat split. Qed.
+
+(* ---------- tie to the Go source ---------- *)
+
+(* the URL builders assembled (Sprintf / Join model) from the string literals the translator reads
+   off registry/remote/url.go and Reference.Host on every run are the closed forms the theorems
+   above are stated about; the correspondence check runs the assembled ones *)
+Theorem C20_generated_builders_agree :
+  forall plain r d from at_,
+    gen_url_base plain r = url_base plain r /\ gen_url_catalog plain r = url_catalog plain r /\
+    gen_url_repo_base plain r = url_repo_base plain r /\ gen_url_taglist plain r = url_taglist plain r /\
+    gen_url_manifest plain r = url_manifest plain r /\ gen_url_blob plain r = url_blob plain r /\
+    gen_url_upload plain r = url_upload plain r /\ gen_url_referrers plain r = url_referrers plain r /\
+    gen_url_mount plain r d from = url_mount plain r d from /\
+    gen_url_referrers_at plain r at_ = url_referrers_at plain r at_ /\
+    nth 0 ValidateRegistry_lits [] = b "dummy://".
+Proof. exact generated_builders_agree. Qed.
+Print Assumptions C20_generated_builders_agree.
